@@ -1,5 +1,5 @@
 """event kinds consumed by each wire/system trace specification"""
-TX_KINDS = ["reset", "rxf", "txf", "dg", "rxd", "app_open", "panic", "stall"]
+TX_KINDS = ["reset", "rxf", "txf", "dg", "rxd", "app_open", "endpoint_packet_sent", "panic", "stall"]
 FLOW_KINDS = ["reset", "tp", "txp", "txf", "rxp", "rxf", "conn_closed", "sim_end", "pacing", "panic", "stall"]
 PIPE_KINDS = ["reset", "app_send_call", "app_finish", "rxf", "app_recv", "app_eos", "panic", "stall"]
 
